@@ -151,6 +151,21 @@ func runC13Emit(c *Case, out func(string)) {
 			o.n++
 		}
 	}
+	// live=1: the stream is open BEFORE the history is written (to a second, fresh log: the numbers
+	// are the same): the primary pushes what is appended while the replica is connected, besides its
+	// periodic fetch. Whatever path a response takes, it never carries part of a transaction.
+	live := hdrVal(c.Hdr, "live", "0") == "1"
+	if live {
+		w.Close()
+		dir2 := tmpDir("c13l-")
+		defer os.RemoveAll(dir2)
+		cfg2 := config.NewDefaultConfig(dir2)
+		cfg2.WALSyncMode = config.SyncNone
+		if w, err = wal.NewWAL(cfg2, filepath.Join(dir2, "wal")); err != nil {
+			out("IMPL-ERROR " + err.Error())
+			return
+		}
+	}
 	pcfg := replication.DefaultPrimaryConfig()
 	pcfg.CompressionCodec = rpb.CompressionCodec_NONE
 	pcfg.EnableCompression = false
@@ -166,6 +181,15 @@ func runC13Emit(c *Case, out func(string)) {
 		p.StreamWAL(&rpb.WALStreamRequest{StartSequence: start, ProtocolVersion: 1, ListenerAddress: "c13:1"}, fs)
 		close(done)
 	}()
+	if live {
+		go func() {
+			time.Sleep(150 * time.Millisecond) // the session is registered
+			if _, err := c13WriteHistory(w, c.Lines); err != nil {
+				out("NOTE live history: " + err.Error())
+			}
+			w.Sync()
+		}()
+	}
 	ap := replication.NewWALBatchApplier(start - 1)
 	lastSeq := uint64(0)
 	if len(o.L) > 0 {
